@@ -84,6 +84,7 @@ class EngineBase:
         self.entry_fid = None
         self.cur_loops = []
         self.lemma_obligations = []
+        self.jobs = int(os.environ.get('PYVC_JOBS', '8'))
 
     # ------------------------------------------------------------------ source
     def module(self, name):
